@@ -28,8 +28,14 @@ EXPLANATION = ("Lean theorems about an executable copy of getConfigs/cfg/hasDefi
                "algorithm; -D/-U/budget theorems. Tie: in-process correspondence of configurations and of per-configuration "
                "live regions (real simplecpp) plus CLI runs. Outside the model: #elif, #if expressions other than defined()/"
                "!defined(), #error, include guards / included files, library defines, token-hash purging of equal configurations.")
-THEOREMS = []
-MODULES = ["Cppcheck.Model.Configs"]
+THEOREMS = ["Cppcheck.Configs.every_region_covered_of_safe", "Cppcheck.Configs.region_uncovered_counterexample",
+            "Cppcheck.Configs.region_uncovered_counterexample_notdefined", "Cppcheck.Configs.every_region_covered_partial",
+            "Cppcheck.Configs.every_region_covered_simple", "Cppcheck.Configs.every_region_covered_fixElse",
+            "Cppcheck.Configs.safe_repaired", "Cppcheck.Configs.every_region_covered_repaired",
+            "Cppcheck.Configs.analysed_all_within_budget", "Cppcheck.Configs.covered_within_budget",
+            "Cppcheck.Configs.D_in_every_config", "Cppcheck.Configs.U_in_no_extracted_config", "Cppcheck.Configs.U_in_no_config",
+            "Cppcheck.Configs.U_in_no_config_D", "Cppcheck.Configs.U_effective", "Cppcheck.Configs.D_effective"]
+MODULES = ["Cppcheck.Props.C12"]
 
 CPLUSPLUS = "__cplusplus"
 KEY_F15 = "else-pops-enclosing-level"
@@ -111,12 +117,23 @@ def nconds(items):
     return len(macros(items))
 
 
-def loss(items):
-    """number of pops the code performs beyond the pushes: one per #ifdef/#if conditional that has an #else"""
+FLAGS = [False, False]      # (fixElse, fixNotDef) of the working tree, set by detect_flags() in run()
+
+
+def kcls(k, fl=None):
+    fl = FLAGS if fl is None else fl
+    return "pos" if k in "dD" else ("neg" if k == "n" or fl[1] else "nd")
+
+
+def loss(items, fl=None):
+    """surplus pops of the fold: one per conditional with #else that pushes no #ifndef candidate (none once fixElse is in)"""
+    fl = FLAGS if fl is None else fl
+    if fl[0]:
+        return 0
     n = 0
     for it in items:
         if it[0] == "c":
-            n += loss(it[3]) + (loss(it[4]) if it[4] is not None else 0) + (1 if (it[4] is not None and it[1] != "n") else 0)
+            n += loss(it[3], fl) + (loss(it[4], fl) if it[4] is not None else 0) + (1 if (it[4] is not None and kcls(it[1], fl) != "neg") else 0)
     return n
 
 
@@ -124,13 +141,16 @@ def drop(stk, n):
     return stk[:max(0, len(stk) - n)]
 
 
-def predict(items):
+def predict(items, fl=None):
     """known-finding classifier, independent of the Lean model: for every region of a family tree (distinct macros, no -D/-U)
-    the defect class that loses it, or None.  Mirrors the decidable predicate `safe` of Props/C12.lean:
+    the defect class that loses it, or None.  Mirrors the decidable predicate `safe` of Model/Configs.lean (checked against
+    it through the driver on every run):
       F15  a macro the region needs was popped off configs_if by an earlier `#if.. #else #endif` (kind != ifndef) nested in
            the same top-level conditional
       F16  the region sits in / below a `#if !defined(X)` conditional and needs a further macro (X is pushed for the wrong branch)"""
+    fl = FLAGS if fl is None else fl
     status = {}
+    ph = [None] if fl[0] else []
 
     def check(S, P):
         names = set(x for x in S if x)
@@ -150,20 +170,21 @@ def predict(items):
             if it[0] != "c":
                 continue
             _, k, m, thn, els = it
-            if k in "dD":
+            c = kcls(k, fl)
+            if c == "pos":
                 walk(thn, stk + [m], P + [(m, "push")], check(stk + [m], P + [(m, "push")]))
                 if els is not None:
-                    walk(els, drop(stk, loss(thn)), P, verdict)
-            elif k == "n":
+                    walk(els, drop(stk, loss(thn, fl)) + ph, P, verdict)
+            elif c == "neg":
                 walk(thn, stk + [None], P, verdict)
                 if els is not None:
-                    s2 = drop(stk, loss(thn)) + [m]
+                    s2 = drop(stk, loss(thn, fl)) + [m]
                     walk(els, s2, P + [(m, "push")], check(s2, P + [(m, "push")]))
             else:
                 walk(thn, stk + [m], P, verdict)
                 if els is not None:
-                    walk(els, drop(stk, loss(thn)), P + [(m, "nd")], check(stk + [m], P + [(m, "nd")]))
-            stk = drop(stk, loss([it]))
+                    walk(els, drop(stk, loss(thn, fl)) + ph, P + [(m, "nd")], check(stk + [m], P + [(m, "nd")]))
+            stk = drop(stk, loss([it], fl))
 
     walk(items, [], [], None)
     return status
@@ -185,7 +206,13 @@ def describe(items, ind=0):
     return out
 
 
-def gc_op(words, ud="", undefs=(), flags="00"):
+def flagstr(fl=None):
+    fl = FLAGS if fl is None else fl
+    return "%d%d" % (1 if fl[0] else 0, 1 if fl[1] else 0)
+
+
+def gc_op(words, ud="", undefs=(), flags=None):
+    flags = flags or flagstr()
     return "gc %s %s %s %s %s" % (flags, core.hx(ud), ",".join(core.hx(u) for u in undefs) or "-", core.hx(CPLUSPLUS), " ".join(words))
 
 
@@ -272,6 +299,95 @@ def load_corpus():
     return json.load(open(p)) if os.path.exists(p) else []
 
 
+# ---- translator: which variant of the fold does the working tree contain? ---------------------------------------------
+
+def _norm(text):
+    text = re.sub(r"/\*.*?\*/", " ", text, flags=re.S)
+    text = re.sub(r"//[^\n]*", " ", text)
+    return re.sub(r"\s+", " ", text).strip()
+
+
+ELSE_CODE = _norm("""
+    const std::string &confCandidate = configs_ifndef.back();
+    if (ret.find(confCandidate) == ret.end()) {
+        const std::set<std::string>::iterator it = ret.find(confCandidate + "=" + confCandidate);
+        if (it != ret.end()) {
+            ret.erase(it);
+        }
+        configs_if.push_back(configs_ifndef.back());
+        ret.insert(cfg(configs_if, userDefines));
+    }
+    }""")
+ELSE_FIXED = _norm("""
+    const std::string &confCandidate = configs_ifndef.back();
+    if (ret.find(confCandidate) == ret.end()) {
+        const std::set<std::string>::iterator it = ret.find(confCandidate + "=" + confCandidate);
+        if (it != ret.end()) {
+            ret.erase(it);
+        }
+        configs_if.push_back(configs_ifndef.back());
+        ret.insert(cfg(configs_if, userDefines));
+    } else {
+        configs_if.emplace_back();
+    }
+    }""")
+PUSH_CODE = ('if (cmdtok->str() != "ifndef") {',
+             'configs_if.push_back((cmdtok->str() == "ifndef") ? std::string() : config); '
+             'configs_ifndef.push_back((cmdtok->str() == "ifndef") ? std::move(config) : std::string()); ret.insert(cfg(configs_if,userDefines));')
+PUSH_FIXED = ('if (!ifndef) {',
+              'configs_if.push_back(ifndef ? std::string() : config); '
+              'configs_ifndef.push_back(ifndef ? std::move(config) : std::string()); ret.insert(cfg(configs_if,userDefines));')
+
+
+def detect_flags(res):
+    """T: read the two places of the static getConfigs() fold that the model's `Flags` describe; fail closed on any other shape"""
+    src = open(os.path.join(core.REPO, "lib", "preprocessor.cpp"), encoding="utf-8", errors="replace").read()
+    i = src.find("static void getConfigs(const simplecpp::TokenList &tokens")
+    j = src.find("std::set<std::string> Preprocessor::getConfigs() const", i)
+    if i < 0 or j < 0:
+        res.oblig("T:getConfigs-fold-shape", False, "translation", "static getConfigs(...) not found in lib/preprocessor.cpp")
+        return None
+    body = _norm(src[i:j])
+    m = re.search(r'\} else if \(!configs_ifndef\.empty\(\)\) \{ (.*?) \} else if \(cmdtok->str\(\) == "endif"', body)
+    why = []
+    fe = fn = None
+    if not m:
+        why.append("#else branch not found")
+    elif m.group(1) == ELSE_CODE:
+        fe = False
+    elif m.group(1) == ELSE_FIXED:
+        fe = True
+    else:
+        why.append("unrecognised #else branch: " + m.group(1)[:300])
+    m1 = re.search(r"(if \([^{}]*\) \{) const std::string::size_type eq = config\.find\('='\);", body)
+    m2 = re.search(r"configs_if\.push_back\([^;]*\); configs_ifndef\.push_back\([^;]*\); ret\.insert\(cfg\(configs_if,userDefines\)\);", body)
+    if not m1 or not m2:
+        why.append("push of the #if entry not found")
+    elif (m1.group(1), m2.group(0)) == PUSH_CODE:
+        fn = False
+    elif (m1.group(1), m2.group(0)) == PUSH_FIXED:
+        fn = True
+    else:
+        why.append("unrecognised push: %s / %s" % (m1.group(1), m2.group(0)[:200]))
+    import hashlib
+    res.extra["getConfigs_fold_sha1"] = hashlib.sha1(body.encode()).hexdigest()
+    res.oblig("T:getConfigs-fold-shape", not why, "translation", "; ".join(why))
+    if why:
+        return None
+    return [fe, fn]
+
+
+_reported = {}
+
+
+def report(res, what, replay, key):
+    """at most a few replay entries per class; everything is counted"""
+    n = _reported.get(key, 0)
+    _reported[key] = n + 1
+    if n < (2 if key else 10):
+        res.violation(what, replay, concrete=True, key=key)
+
+
 # ---- the check ----------------------------------------------------------------------------------------------
 
 def run_gc(ctx, res, exe, drv, cases, name):
@@ -319,19 +435,31 @@ def p_impl_inprocess(ctx, res, cases, parsed, impl_lines):
         for r in lost:
             key = pred.get(r)
             res.count("lost:" + str(key))
-            res.violation("region R%d is live in none of the %d configurations returned by Preprocessor::getConfigs (%s)\n%s" %
-                          (r, len(cfgs), ", ".join(repr(x) for x in cfgs), "\n".join(describe(t))),
-                          dict(kind="inprocess", words=c["words"], ud="", undefs=[], region=r, cfgs=cfgs, classified=key,
-                               replay_cmd="./check.py C12 --replay <this file>"), concrete=True, key=key)
+            report(res, "region R%d is live in none of the %d configurations returned by Preprocessor::getConfigs (%s)\n%s" %
+                   (r, len(cfgs), ", ".join(repr(x) for x in cfgs), "\n".join(describe(t))),
+                   dict(kind="inprocess", words=c["words"], ud="", undefs=[], region=r, cfgs=cfgs, classified=key,
+                        replay_cmd="./check.py C12 --replay <this file>"), key)
 
 
 IDX = re.compile(r"accessed at index (\d+)")
 
 
-def run_cli(ctx, exe, words, args):
-    """print the tree to a file, run the real cppcheck; returns (checked configurations, reported regions, raw)"""
-    rc, out, err = core.run_lines(exe, [], ["src " + " ".join(words)])
-    src = core.unhx(out[0])
+def cli_args(opt):
+    ud, undefs = opt.get("ud", ""), opt.get("undefs", [])
+    args = []
+    if opt.get("force"):
+        args.append("--force")
+    if opt.get("maxc"):
+        args.append("--max-configs=%d" % opt["maxc"])
+    for dpiece in (ud.split(";") if ud else []):
+        args.append("-D" + dpiece)
+    for u in undefs:
+        args.append("-U" + u)
+    return args
+
+
+def run_cppcheck(ctx, src, args):
+    """run the real cppcheck on the printed file; returns (checked configurations, reported regions, raw)"""
     d = os.path.join(ctx.tmp, "cli%d" % ctx.rng.getrandbits(40))
     os.makedirs(d)
     open(os.path.join(d, "x.c"), "wb").write(src)
@@ -351,75 +479,73 @@ def run_cli(ctx, exe, words, args):
     return checked, regs, (o + e)
 
 
-def cli_case(ctx, res, exe, drv, t, opt):
-    """one CLI run compared with the model's prediction; P_impl evaluated on the run itself"""
-    words = flatten(t)
-    ud, undefs = opt.get("ud", ""), opt.get("undefs", [])
-    args = []
-    if opt.get("force"):
-        args.append("--force")
-    if opt.get("maxc"):
-        args.append("--max-configs=%d" % opt["maxc"])
-    for dpiece in (ud.split(";") if ud else []):
-        args.append("-D" + (dpiece[:-2] if dpiece.endswith("=1") and opt.get("strip1") else dpiece))
-    for u in undefs:
-        args.append("-U" + u)
-    checked, regs, raw = run_cli(ctx, exe, words, args)
-    # model prediction from the *implementation's* getConfigs (so that this tie isolates the selection loop)
-    op = gc_op(words, ud, undefs)
-    rc, impl, err = core.run_lines(exe, [], [op])
-    cfgs, lives = parse_gc(impl[0])
-    sel = "sel %d %d 0 %s %s" % (1 if opt.get("force") else 0, opt.get("maxc") or 0, core.hx(ud), ",".join(core.hx(c) for c in cfgs))
-    rc, mo, err = core.run_lines(drv, [], [sel])
-    rc, ho, err = core.run_lines(exe, [], [sel])
-    mm = re.match(r"^M (\d+) \| A (\S*)$", mo[0])
-    maxc = int(mm.group(1))
-    analysed = [core.unhx(h).decode("latin-1") for h in mm.group(2).split(",")] if mm.group(2) else []
-    ok_max = ho[0] == "M %d" % maxc
-    # `Checking x.c: cfg...` is printed for every analysed configuration except an empty first one
-    expect_lines = [c for i, c in enumerate(analysed) if c != "" or i > 0]
-    # regions the model expects to be reported: live (model semantics through the driver) in an analysed configuration
-    n_an = len(analysed)
-    gcs = cfgs if maxc > 1 else [ud]
-    live_op = gc_op(words, ud, undefs)
-    rc, mo2, err = core.run_lines(drv, [], [live_op])
-    mcfgs, mlives = parse_gc(mo2[0])
-    exp_regs = set()
-    if maxc > 1:
-        for c, l in list(zip(mcfgs, mlives))[:n_an]:
+def run_cli(ctx, exe, words, args):
+    rc, out, err = core.run_lines(exe, [], ["src " + " ".join(words)])
+    return run_cppcheck(ctx, core.unhx(out[0]), args)
+
+
+def cli_cases(ctx, res, exe, drv, todo):
+    """todo: list of (tree, opt).  Real cppcheck runs compared with the model's selection loop (fed with the
+    implementation's own getConfigs) and the model's conditional-inclusion semantics; P_impl evaluated on each run."""
+    words = [flatten(t) for t, _ in todo]
+    rc, srcs, err = core.run_lines(exe, [], ["src " + " ".join(w) for w in words])
+    gops = [gc_op(w, o.get("ud", ""), o.get("undefs", [])) for w, (_, o) in zip(words, todo)]
+    rc, gimpl, err = core.run_lines(exe, [], gops)
+    rc, gmodel, err = core.run_lines(drv, [], gops)
+    sels = []
+    for (t, o), gi in zip(todo, gimpl):
+        cfgs, _ = parse_gc(gi)
+        sels.append("sel %d %d 0 %s %s" % (1 if o.get("force") else 0, o.get("maxc") or 0, core.hx(o.get("ud", "")), ",".join(core.hx(c) for c in cfgs)))
+    rc, smodel, err = core.run_lines(drv, [], sels)
+    rc, simpl, err = core.run_lines(exe, [], sels)
+    details = []
+    for k, (t, opt) in enumerate(todo):
+        ud, undefs = opt.get("ud", ""), opt.get("undefs", [])
+        args = cli_args(opt)
+        checked, regs, raw = run_cppcheck(ctx, core.unhx(srcs[k]), args)
+        cfgs, lives = parse_gc(gimpl[k])
+        mm = re.match(r"^M (\d+) \| A (\S*)$", smodel[k])
+        maxc = int(mm.group(1))
+        analysed = [core.unhx(h).decode("latin-1") for h in mm.group(2).split(",")] if mm.group(2) else []
+        ok_max = simpl[k] == "M %d" % maxc
+        # `Checking x.c: cfg...` is printed for every analysed configuration except an empty first one
+        expect_lines = [c for i, c in enumerate(analysed) if c != "" or i > 0]
+        # regions the model expects to be reported: live (model semantics) in an analysed configuration.  With
+        # maxConfigs <= 1 only the user's configuration is analysed = what the model calls the empty configuration under -D
+        mcfgs, mlives = parse_gc(gmodel[k])
+        exp_regs = set()
+        for c, l in list(zip(mcfgs, mlives))[:(len(analysed) if maxc > 1 else 1)]:
             exp_regs |= l
-    else:
-        # only the user's configuration: ask the model for it explicitly (live under ud with the empty configuration)
-        exp_regs = mlives[0] if mlives else set()
-    canon = "cli %s | %s" % (" ".join(args), " ".join(words))
-    same = (checked == expect_lines) and (regs == exp_regs) and ok_max
-    res.case(canon, nconds(t) >= 2, dict(tie="cli", args=args, checked=checked, model_analysed=analysed, reported=sorted(regs)) if ctx.rng.random() < 0.1 else None)
-    res.count("cli:" + ("force" if opt.get("force") else "max%s" % (opt.get("maxc") or "-")) + (":D" if ud else "") + (":U" if undefs else ""))
-    if same:
-        res.traces_validated += 1
-    detail = None if same else ("args=%s checked=%s model=%s reported=%s model=%s getMaxConfigs impl=%s model=%d\n%s" %
-                                (args, checked, expect_lines, sorted(regs), sorted(exp_regs), ho[0], maxc, "\n".join(describe(t))))
-    # ---- P_impl on the run itself
-    dnames = cfg_names(ud)
-    for c in checked:
-        ns = cfg_names(c)
-        for x in dnames:
-            if x not in ns:
-                res.violation("-D%s but the analysed configuration %r does not define it" % (x, c),
-                              dict(kind="cli", words=words, args=args, checked=checked), concrete=True, key=None)
-        for u in undefs:
-            if u in ns and u not in dnames:
-                res.violation("-U%s but the analysed configuration %r defines it" % (u, c),
-                              dict(kind="cli", words=words, args=args, checked=checked), concrete=True, key=None)
-    if not ud and not undefs and len(set(macros(t))) == len(macros(t)) and (opt.get("force") or len(cfgs) <= maxc):
-        pred = predict(t)
-        for r in sorted(set(regions(t)) - regs):
-            key = pred.get(r)
-            res.count("cli-lost:" + str(key))
-            res.violation("planted finding of region R%d is not reported by `cppcheck %s` although the %d configurations fit the budget %d\n%s" %
-                          (r, " ".join(args), len(cfgs), maxc, "\n".join(describe(t))),
-                          dict(kind="cli", words=words, args=args, region=r, checked=checked, classified=key), concrete=True, key=key)
-    return detail
+        canon = "cli %s | %s" % (" ".join(args), " ".join(words[k]))
+        same = (checked == expect_lines) and (regs == exp_regs) and ok_max
+        res.case(canon, nconds(t) >= 2, dict(tie="cli", args=args, checked=checked, model_analysed=analysed, reported=sorted(regs)) if k % 9 == 0 else None)
+        res.count("cli:" + ("force" if opt.get("force") else "max%s" % (opt.get("maxc") or "-")) + (":D" if ud else "") + (":U" if undefs else ""))
+        if same:
+            res.traces_validated += 1
+        else:
+            details.append("args=%s checked=%s model=%s reported=%s model=%s getMaxConfigs impl=%s model=%d\n%s" %
+                           (args, checked, expect_lines, sorted(regs), sorted(exp_regs), simpl[k], maxc, "\n".join(describe(t))))
+        # ---- P_impl on the run itself
+        dnames = cfg_names(ud)
+        for c in checked:
+            ns = cfg_names(c)
+            for x in dnames:
+                if x not in ns:
+                    report(res, "-D%s but the analysed configuration %r does not define it" % (x, c),
+                           dict(kind="cli", words=words[k], args=args, checked=checked), None)
+            for u in undefs:
+                if u in ns and u not in dnames:
+                    report(res, "-U%s but the analysed configuration %r defines it" % (u, c),
+                           dict(kind="cli", words=words[k], args=args, checked=checked), None)
+        if not ud and not undefs and len(set(macros(t))) == len(macros(t)) and (opt.get("force") or len(cfgs) <= maxc):
+            pred = predict(t)
+            for r in sorted(set(regions(t)) - regs):
+                key = pred.get(r)
+                res.count("cli-lost:" + str(key))
+                report(res, "planted finding of region R%d is not reported by `cppcheck %s` although the %d configurations fit the budget %d\n%s" %
+                       (r, " ".join(args), len(cfgs), maxc, "\n".join(describe(t))),
+                       dict(kind="cli", words=words[k], args=args, region=r, checked=checked, classified=key), key)
+    return details
 
 
 def run(ctx, res):
@@ -428,6 +554,10 @@ def run(ctx, res):
     core.prove(ctx, res, MODULES, THEOREMS)
     drv = ctx.driver("drv_c12")
     exe = ctx.harness("c12")
+    _reported.clear()
+    fl = detect_flags(res)
+    FLAGS[:] = fl if fl else [False, False]
+    res.extra["fold_variant"] = dict(fixElse=FLAGS[0], fixNotDef=FLAGS[1], recognised=bool(fl))
 
     # ---- corpus first (witnesses of the known findings, past disagreements) ------------------------------------------
     corpus = load_corpus()
@@ -456,6 +586,16 @@ def run(ctx, res):
         res.count("conds:%d" % min(nconds(t), 12))
     ops, parsed, impl, model = run_gc(ctx, res, exe, drv, cases, "getConfigs-family")
     p_impl_inprocess(ctx, res, cases, parsed, impl)
+    # the python classifier (known-finding keys) and the Lean predicate `safe` accept the same trees, for every variant
+    bad = []
+    for fls in ([False, False], [True, False], [True, True]):
+        sops = ["safe %s %s" % (flagstr(fls), " ".join(c["words"])) for c in cases]
+        rc, so, err = core.run_lines(drv, [], sops, timeout=600)
+        for c, o in zip(cases, so):
+            mine = "1" if not any(predict(c["tree"], fls).values()) else "0"
+            if o != "S " + mine:
+                bad.append((flagstr(fls), o, mine, " ".join(c["words"])))
+    res.oblig("classifier-equals-lean-safe", not bad, "translation", "" if not bad else "%d differ; first %s" % (len(bad), bad[0]))
 
     # ---- C1: -D / -U --------------------------------------------------------------------------------------
     cases = []
@@ -488,8 +628,8 @@ def run(ctx, res):
     p_impl_inprocess(ctx, res, cases, parsed, impl)
 
     # ---- C2: selection loop through the real binary ---------------------------------------------------------------------
-    details = []
-    n_cli = 160 if thorough else 36
+    n_cli = 160 if thorough else 24
+    todo = []
     for i in range(n_cli):
         t = family_tree(rng, rng.choice([1, 2, 3, 4, 5]))
         k = rng.random()
@@ -510,12 +650,14 @@ def run(ctx, res):
                 opt["maxc"] = rng.choice([2, 64])
             elif rng.random() < 0.3:
                 opt["force"] = True
-        d = cli_case(ctx, res, exe, drv, t, opt)
-        if d:
-            details.append(d)
+        todo.append((t, opt))
+    for c in load_corpus():
+        if c.get("tree") and c.get("expect_lost") is not None:
+            todo.append((c["tree"], dict(maxc=64)))
+    details = cli_cases(ctx, res, exe, drv, todo)
     res.oblig("correspondence:cli-selection", not details, "correspondence",
-              "" if not details else "%d of %d CLI runs differ from the model; first: %s" % (len(details), n_cli, details[0]))
-    res.extra["cli_runs"] = n_cli
+              "" if not details else "%d of %d CLI runs differ from the model; first: %s" % (len(details), len(todo), details[0]))
+    res.extra["cli_runs"] = len(todo)
 
 
 def replay(ctx, res, rp):
